@@ -17,8 +17,12 @@ struct Elem {
     int id;
     int key;
     int cleared;            // times handed to the clear callback
+    uint32_t guard_lo;      // payload around the node: the library must leave it alone
     struct cstl_dlist_node node;
+    uint32_t guard_hi;
+    int key_copy;
 };
+const uint32_t GUARD_LO = 0xA5C3F00Du, GUARD_HI = 0x5A3C0FF1u;
 
 enum Op { PUSH_F, PUSH_B, POP_F, POP_B, INSERT, ERASE, REVERSE, SORT, CONCAT, SWAP, FIND,
           FOREACH_STOP, FOREACH_ERASE, CLEAR, AUDIT, NOPS };
@@ -83,6 +87,9 @@ struct Inst {
         e->id = next_id++;
         e->key = key;
         e->cleared = 0;
+        e->guard_lo = GUARD_LO;
+        e->guard_hi = GUARD_HI;
+        e->key_copy = ~key;
         e->node.n = (struct cstl_dlist_node *)0x5a5a5a5a5a5a5a5aull;
         e->node.p = (struct cstl_dlist_node *)0x5a5a5a5a5a5a5a5aull;
         all.push_back(e);
@@ -152,7 +159,10 @@ int erase_cb(void *obj, void *priv)
     return 0;
 }
 
-struct ClearCtx { Inst *in; std::vector<Elem *> *expect; size_t calls; bool bad; };
+// clear callback: counts per address (in the harness, never inside the element, so
+// a second hand-over of a freed element is a clause and not a harness fault),
+// then takes ownership: poison 0xDD + free
+struct ClearCtx { Inst *in; std::vector<Elem *> *expect; std::vector<char> *done; size_t calls; bool twice, foreign; };
 ClearCtx *g_clear_ctx;
 void clear_cb(void *obj, void *priv)
 {
@@ -161,12 +171,12 @@ void clear_cb(void *obj, void *priv)
     (void)priv;
     c->calls++;
     Elem *e = (Elem *)obj;
-    bool found = false;
-    for (Elem *x : *c->expect) if (x == e) found = true;
-    if (!found) { c->bad = true; return; }   // not an element of this list: do not touch
+    size_t idx = c->expect->size();
+    for (size_t i = 0; i < c->expect->size(); i++) if ((*c->expect)[i] == e) { idx = i; break; }
+    if (idx == c->expect->size()) { c->foreign = true; return; }   // not an element of this list: do not touch
+    if ((*c->done)[idx]) { c->twice = true; return; }              // already handed over (and freed)
+    (*c->done)[idx] = 1;
     e->cleared++;
-    if (e->cleared > 1) { c->bad = true; return; }
-    // the callee takes ownership: poison and free
     c->in->kill(e);
 }
 
@@ -219,6 +229,12 @@ void audit(Inst &in, int li, Obs *obs, const char *pfx)
     for (size_t i = 0; i < m.size(); i++)
         CHECK(vr.seen[i] == m[m.size() - 1 - i], cl,
               "%s L%d backward traversal position %zu is not the mirror of the reference", in.tag, li, i);
+    // the elements of the sequence are still the reference's elements: nothing
+    // outside the embedded node was overwritten
+    snprintf(cl, sizeof cl, "%s.payload", pfx);
+    for (size_t i = 0; i < m.size(); i++)
+        CHECK(m[i]->guard_lo == GUARD_LO && m[i]->guard_hi == GUARD_HI && m[i]->key_copy == ~m[i]->key, cl,
+              "%s L%d element at position %zu was overwritten outside its list node", in.tag, li, i);
 }
 
 std::string seq_str(const std::vector<Elem *> &m)
@@ -234,7 +250,7 @@ std::string seq_str(const std::vector<Elem *> &m)
 
 // canonical implementation state, read from the public struct (state
 // identification for G1 only; never used in an oracle clause): forward key
-// chain through h.n, backward key chain through h.p, size field
+// chain through h.n, backward key chain through h.p, size and offset fields
 std::string peek_state(Inst &in)
 {
     std::string s;
@@ -248,8 +264,8 @@ std::string peek_state(Inst &in)
         n = 0;
         for (struct cstl_dlist_node *c = l->h.p; c && c != &l->h && n < bound; c = c->p, n++)
             s += (char)('a' + ((Elem *)((char *)c - offsetof(Elem, node)))->key);
-        char b[32];
-        snprintf(b, sizeof b, "|s%zu;", (size_t)l->size);
+        char b[64];
+        snprintf(b, sizeof b, "|s%zu|o%zu;", (size_t)l->size, (size_t)l->off);
         s += b;
     }
     return s;
@@ -494,14 +510,16 @@ void apply(Inst &in, CaseCtx &cx, int op, uint8_t a, uint8_t b, int K, size_t ma
     }
     case CLEAR: {
         std::vector<Elem *> expect = m;
-        ClearCtx cc{&in, &expect, 0, false};
+        std::vector<char> done(expect.size(), 0);
+        ClearCtx cc{&in, &expect, &done, 0, false, false};
         g_clear_ctx = &cc;
         size_t n = m.size();
         m.clear();
         TRACE("%s L%d.clear (n=%zu)", in.tag, li, n);
         LIB(cstl_dlist_clear(l, clear_cb));
         g_clear_ctx = nullptr;
-        CHECK(!cc.bad, "C15.dlist.once", "clear callback received an element twice or an object that is not in the list");
+        CHECK(!cc.twice, "C15.dlist.once", "clear handed the same element to the callback twice");
+        CHECK(!cc.foreign, "C15.dlist.once", "clear callback received an object that is not an element of the list");
         CHECK(cc.calls == n, "C15.dlist.once", "clear made %zu callbacks for %zu elements", cc.calls, n);
         size_t sz;
         LIB(sz = cstl_dlist_size(l));
